@@ -26,7 +26,11 @@ TInit == /\ l = 1 /\ viol = <<>> /\ hdr = <<>> /\ trs = <<>> /\ est = <<>> /\ pr
          /\ auth = <<>> /\ route = <<>> /\ pos = <<>> /\ T = <<>> /\ fixed = <<>>
 
 Names(checks) == LET F == SelectSeq(checks, LAMBDA c : ~c[2]) IN [i \in 1..Len(F) |-> F[i][1]]
-Report(names) == viol' = viol \o [i \in 1..Len(names) |-> <<l, Rec[l].case, names[i]>>]
+\* `viol` is part of every state: a flood of failures of one known class must not make validation quadratic.
+\* Beyond MaxViol recorded failures further ones are only counted (stats.dropped); the driver treats dropped > 0 as a
+\* tool error, never as "held".
+MaxViol == 4000
+Report(names) == viol' = IF Len(viol) < MaxViol THEN viol \o [i \in 1..Len(names) |-> <<l, Rec[l].case, names[i]>>] ELSE viol
 R == Rec[l]
 
 Begin == /\ R.ev = "begin"
@@ -187,6 +191,7 @@ TNext == /\ l <= Len(Rec) /\ l' = l + 1
 TSpec == TInit /\ [][TNext]_tvars
 
 AtEnd == l > Len(Rec) => /\ PrintT(<<"VIOLS", ToJson(viol)>>)
+                         /\ PrintT(<<"VIOLCAP", ToJson([recorded |-> Len(viol), cap |-> MaxViol])>>)
                          /\ PrintT(<<"STATS", ToJson(stats)>>)
 Accepted == IF TLCGet("stats").diameter - 1 = Len(Rec) THEN TRUE
             ELSE Print(<<"FIRST-UNMATCHED", TLCGet("stats").diameter, Rec[TLCGet("stats").diameter]>>, FALSE)
